@@ -86,7 +86,7 @@ PROPS = {
         "shrink_budget": 3,
     },
     "C07": {
-        "lean_modules": ["Props.Facts07"],
+        "lean_modules": ["Props.Facts07", "Props.Gen07", "Props.GenT07"],
         # the model of Update *is* the keymap the property speaks of: a state that differs from
         # it after a key sequence is a key that did not do what the keymap says
         "correspondence_is_failure": {"ui": True},
@@ -359,7 +359,7 @@ MANIFEST_TEXT = {
         "technique": "Lean 4 proof (panic-site theorems over Except-valued model functions) + differential correspondence and crash/hang observation under recover and watchdog",
     },
     "C07": {
-        "text": "Lean model of State.Update (every branch, in order) over the item model, with theorems over all worlds and all byte sequences: Update never panics from any state reachable from Subcommand(open, .) (history non-empty, selection buffer all digits), and each key does what the keymap says (j/k move within bounds, g returns to the opened item, h/l walk the history, space/c/r/a/./:open push exactly one page and drop the forward history, Esc/Backspace cancel, digits select). Tied to ui.go by driving the real ui.State against simulator worlds and comparing mode, buffer, cursor and the visible window after every key; every emitted frame must have the terminal's height and be terminal-safe.",
+        "text": "Lean model of State.Update (every branch, in order) over the item model, with theorems over all worlds and all byte sequences: Update never panics from any state reachable from Subcommand(open, .) (history non-empty, selection buffer all digits), and each key does what the keymap says (j/k move within bounds, g returns to the opened item, h/l walk the history, space/c/r/a/./:open push exactly one page and drop the forward history, Esc/Backspace cancel, digits select). Tied to ui.go by driving the real ui.State against simulator worlds and comparing mode, buffer, cursor and the visible window after every key; every emitted frame must have the terminal's height and be terminal-safe. Tied a second time by translation: (*State).Update itself - the loading return, Escape, Backspace, the command line with SplitN, ':' and the digits, selection mode with strconv.Atoi and SelectLink, the fall-through into the final switch, one case per key - is translated to Lean on every run (extract/go2lean16.go -> Generated/GoUpdate.lean) with the other methods of *State and of package pub as parameters, and proved equal to Ui.update on every model state and every byte when those parameters are the model's own functions (Props/Gen07.lean); the keymap theorems are carried over to the translated code (Props/GenT07.lean).",
         "design_ref": "DESIGN.md §5 C07",
         "note": "Trusted: Lean kernel; correspondence check (testing); quiescence detection; oracle tables; TLS.",
         "technique": "Lean 4 proof (invariant by induction over the key sequence; keymap corollaries) + differential correspondence of the real UI against the model after every key",
